@@ -25,6 +25,13 @@ Spec: XarrayLabels.tla (on top of MapDenote.tla); model: MC_XarrayLabels.tla.   
    listed in the MapSpec in EVERY order (root before / after / between mapped arrays, two mapped arrays zipped, a nested
    root-first zip).  TLC checks XarrayLabels!LawSources and LawSourceOrder (every reordering of a MapSpec's inputs has the
    same analysis and denotation) on each member and exports each like any other case; the real code is run on every order.
+6. Scoped names (Mode = "scoped"): names are opaque (XarrayLabels section 6).  TLC applies the renamings that scopes produce
+   to members of the universe - every name / the root inputs / the outputs moved into one scope (several root inputs, mapped
+   arrays of equal length among them, then share the prefix "sc."), the root inputs moved into different scopes with one
+   common last component (p.v, q.v, ...), one input of a zipped pair alone - checks LawNaming (analysis, denotation and
+   coordinates of the renamed case are those of its base case, renamed) and exports each renamed case like any other; the
+   real pipeline is built with the dotted names, mapped into a run folder and both datasets (from the results / read back
+   from the folder) are judged against the export.  A sample of them also takes part in the two-run histories of 4.
 Python only drives the real code, projects datasets and compares with what TLC printed.
 """
 from __future__ import annotations
@@ -55,8 +62,9 @@ LEVEL = "model_checking"
 
 LAWS_ALWAYS = "LawOrder LawUnion LawDimsOK LawCoordsFit LawAccepted LawSwitch LawSingleInAll LawSel"
 LAWS_UNIVERSE = "LawSupported LawOrderFree LawSelExact LawOneIndex LawDistinct"
+LAWS_SCOPED = "LawSupported LawNaming LawSelExact LawOneIndex LawDistinct"      # Mode = "scoped": the renamed universe cases
 MC_CFG = """SPECIFICATION XSpec
-CONSTANTS MaxSize = {maxsize} MinSize = {minsize} Rich = {rich} Shard = {shard} NShards = {nshards} Mode = "{mode}"
+CONSTANTS MaxSize = {maxsize} MinSize = {minsize} Rich = {rich} Shard = {shard} NShards = {nshards} Mode = "{mode}" Thin = {thin} Phase = {phase}
 INVARIANT {invs}
 """
 PROCS = min(8, os.cpu_count() or 4)
@@ -68,7 +76,7 @@ def export_universe(ctx: Ctx, *, minsize: int, maxsize: int, rich: bool, nshards
     def one(s: int):
         wd = ctx.workdir(f"mc_xarray_{minsize}{maxsize}{int(rich)}_{s}")
         cfg = MC_CFG.format(maxsize=maxsize, minsize=minsize, rich="TRUE" if rich else "FALSE", shard=s, nshards=nshards,
-                            mode="universe", invs=f"{LAWS_UNIVERSE} {LAWS_ALWAYS} EmitLabels")
+                            mode="universe", thin=1, phase=0, invs=f"{LAWS_UNIVERSE} {LAWS_ALWAYS} EmitLabels")
         return run_tlc("MC_XarrayLabels", cfg, wd, workers=1, allow_violation=False, timeout=3000, heap="3g")
     cases = []
     with ThreadPoolExecutor(max_workers=par) as ex:
@@ -91,7 +99,7 @@ def export_sources(ctx: Ctx, *, minsize: int, maxsize: int, rich: bool, nshards:
     def one(sh: int):
         wd = ctx.workdir(f"mc_xarray_sources_{minsize}{maxsize}{int(rich)}_{sh}")
         cfg = MC_CFG.format(maxsize=maxsize, minsize=minsize, rich="TRUE" if rich else "FALSE", shard=sh, nshards=nshards,
-                            mode="sources", invs=f"{LAWS_UNIVERSE} {LAWS_ALWAYS} EmitLabels")
+                            mode="sources", thin=1, phase=0, invs=f"{LAWS_UNIVERSE} {LAWS_ALWAYS} EmitLabels")
         return run_tlc("MC_XarrayLabels", cfg, wd, workers=1, allow_violation=False, timeout=3000, heap="3g")
     cases = []
     with ThreadPoolExecutor(max_workers=par) as ex:
@@ -100,6 +108,23 @@ def export_sources(ctx: Ctx, *, minsize: int, maxsize: int, rich: bool, nshards:
             cases += [p for t, p in parse_prints(r.prints) if t == "CASE"]
     if not cases:
         raise MachineryError("MC_XarrayLabels (sources mode) exported no cases")
+    return cases
+
+
+def export_scoped(ctx: Ctx, *, minsize: int, maxsize: int, nshards: int, shards: list[int], thin: int, phase: int, par: int = 1) -> list[dict]:
+    """The scoped-names family of MC_XarrayLabels (Mode = "scoped"): universe cases under the renamings that scopes produce."""
+    def one(sh: int):
+        wd = ctx.workdir(f"mc_xarray_scoped_{minsize}{maxsize}_{sh}")
+        cfg = MC_CFG.format(maxsize=maxsize, minsize=minsize, rich="FALSE", shard=sh, nshards=nshards, mode="scoped", thin=thin,
+                            phase=phase, invs=f"{LAWS_SCOPED} {LAWS_ALWAYS} EmitLabels")
+        return run_tlc("MC_XarrayLabels", cfg, wd, workers=1, allow_violation=False, timeout=3000, heap="3g")
+    cases = []
+    with ThreadPoolExecutor(max_workers=par) as ex:
+        for r in ex.map(one, shards):
+            ctx.add_tlc(r, f"MC_XarrayLabels scoped-names family sizes {minsize}..{maxsize} (every {thin}th pair from {phase})")
+            cases += [p for t, p in parse_prints(r.prints) if t == "CASE"]
+    if not cases:
+        raise MachineryError("MC_XarrayLabels (scoped mode) exported no cases")
     return cases
 
 
@@ -113,7 +138,7 @@ def export_file_cases(ctx: Ctx, items: list[dict], name: str, *, chunk: int = 25
         with f.open("w") as fh:
             for it in chunks[ci]:
                 fh.write(json.dumps(it, separators=(",", ":")) + "\n")
-        cfg = MC_CFG.format(maxsize=1, minsize=1, rich="FALSE", shard=0, nshards=1, mode="file",
+        cfg = MC_CFG.format(maxsize=1, minsize=1, rich="FALSE", shard=0, nshards=1, mode="file", thin=1, phase=0,
                             invs=f"{LAWS_ALWAYS} EmitLabels")
         return run_tlc("MC_XarrayLabels", cfg, wd, workers=1, env={"CASE_FILE": str(f)}, allow_violation=False,
                        timeout=3000, heap="3g")
@@ -133,7 +158,7 @@ def export_file_cases(ctx: Ctx, items: list[dict], name: str, *, chunk: int = 25
 def check_same_universe(ctx: Ctx) -> None:
     """The universe enumerated by MC_XarrayLabels IS the C01 universe (MC_MapDenote) restricted to rank <= 2."""
     wd = ctx.workdir("mc_xarray_same")
-    cfg = MC_CFG.format(maxsize=2, minsize=1, rich="FALSE", shard=0, nshards=1, mode="same", invs="EmitSame")
+    cfg = MC_CFG.format(maxsize=2, minsize=1, rich="FALSE", shard=0, nshards=1, mode="same", thin=1, phase=0, invs="EmitSame")
     r = run_tlc("MC_XarrayLabels", cfg, wd, workers=1, allow_violation=False, timeout=3000, heap="3g")
     ctx.add_tlc(r, "MC_XarrayLabels SameUniverse")
     if not any("SAME" in ln and "TRUE" in ln for ln in r.prints):
@@ -376,7 +401,8 @@ def features(tdesc: dict) -> dict:
         if f["has_ms"]:
             full = [tuple(sp["axes"]) for sp in f["ms"]["ins"] if sp["name"] not in mapped_out and ":" not in sp["axes"] and len(sp["axes"]) >= 2]
             zipped2 |= len(full) != len(set(full))
-    return {"root_axis_only_colon": only_colon, "zipped_rank2_inputs": zipped2,
+    names = {n for f in tdesc["funcs"] for n in f["params"] + f["outputs"]}
+    return {"root_axis_only_colon": only_colon, "zipped_rank2_inputs": zipped2, "scoped_names": any("." in n for n in names),
             "has_generator": any(f["has_ms"] and not f["ms"]["ins"] for f in tdesc["funcs"])}
 
 
@@ -384,6 +410,8 @@ def signature(m: dict, tdesc: dict) -> dict:
     f = features(tdesc)
     sig = {"check": "labels", "clause": m["clause"], "root_axis_only_colon": f["root_axis_only_colon"],
            "zipped_rank2_inputs": f["zipped_rank2_inputs"], "history": m.get("history", "single-run")}
+    if f["scoped_names"]:            # dotted (scoped) parameter / output names
+        sig["scoped_names"] = True
     if "cls" in m:
         sig["cls"] = m["cls"]
         sig["func"] = m["func"]
@@ -493,6 +521,36 @@ def selftest(ctx: Ctx, jobs: list[dict], results: list[dict]) -> None:
     ctx.selftest("uncorrupted cases accepted", base == [], f"rejected={base}")
 
 
+def selftest_scoped(ctx: Ctx, sjobs: list[dict], sresults: list[dict]) -> None:
+    """Scoped names are really told apart: in accepted scoped cases, replace the exported value of one coordinate level by
+    the value of ANOTHER root input of the case (what reading one file for two dotted names returns); exactly that case
+    must be rejected, on coordinate values / selections only."""
+    def other_input(c):
+        v = next(v for v in c["views"] if v["all"] and v["cands"])
+        lv = v["cands"][0]["levels"][0]
+        return lv, next((n for n, _ in c["inputs"] if n != lv and "." in n + lv), None)
+    good = [(j, r) for j, r in zip(sjobs, sresults) if "obs" in r and not r["mismatches"]
+            and any(v["all"] and v["cands"] for v in j["case"]["views"]) and other_input(j["case"])[1] is not None][:6]
+    if len(good) < 3:
+        if any(r["mismatches"] for r in sresults):
+            return                      # the run is red anyway; the violations are reported
+        raise MachineryError("self-test (scoped names): fewer than 3 accepted scoped cases with a coordinate and two inputs")
+    vi = len(good) // 2
+    rej, clauses = [], set()
+    for n, (j, r) in enumerate(good):
+        c = copy.deepcopy(j["case"])
+        if n == vi:
+            lv, other = other_input(c)
+            c["den"][lv] = dict(c["inputs"])[other] if other not in c["den"] else c["den"][other]
+        mm = compare(c, r["obs"])
+        if mm:
+            rej.append(n)
+            clauses |= {m["clause"] for m in mm}
+    ok = rej == [vi] and "coordinate-values" in clauses
+    ctx.selftest("expected-value corruption (a scoped coordinate level given another input's value)", ok,
+                 f"rejected={rej} expected=[{vi}] clauses={sorted(clauses)}")
+
+
 def selftest_second(ctx: Ctx, bjobs: list[dict], bresults: list[dict]) -> None:
     """The second run is really judged against ITS inputs: accepted second-run observations must be rejected when judged
     against the first run's export (what a stale, memoised loader would return), on values only, and vice versa."""
@@ -553,7 +611,10 @@ def run(ctx: Ctx) -> None:
                 "internal axis at every position, optional 2nd output, generator; consumers none/element-wise/partial/full/zip "
                 "with a fresh input) + ALL members of the multi-source family (MC_XarrayLabels Mode=sources: the last function "
                 "zips 2-3 sources of one axis - root inputs, mapped arrays 1 and 2 steps from their roots, a rank-2 mapped array "
-                "whole or reduced - in every order of the MapSpec) + seeded random pipelines of 1-4 functions with mapped root inputs of rank <= 2 + a seeded "
+                "whole or reduced - in every order of the MapSpec) + members of the scoped-names family (MC_XarrayLabels Mode=scoped: "
+                "universe cases with dotted names - all names / the root inputs / the outputs in one scope, root inputs in different "
+                "scopes with a common last component, one input alone; XarrayLabels!LawRenamedAnalysis/LawRenamedCoords checked on "
+                "each) + seeded random pipelines of 1-4 functions with mapped root inputs of rank <= 2 + a seeded "
                 "sample of universe cases mapped twice into the same run folder with renamed input values (second run judged "
                 "against its own inputs); "
                 "non-trivial = the dataset has at least one coordinate and two datasets were compared")
@@ -566,14 +627,18 @@ def run(ctx: Ctx) -> None:
     if quick:
         # quick: the half of the size-2 universe selected by the seed (MC_MapDenote's Shard/NShards), one storage per case
         # + the whole multi-source family (pairs from all 7 sources, triples from 5), whatever the seed
-        with ThreadPoolExecutor(max_workers=3) as ex:
+        # + every 31st <<universe case of that half, kind of renaming>> pair of the scoped-names family (all five kinds)
+        with ThreadPoolExecutor(max_workers=4) as ex:
             fut = ex.submit(export_sources, ctx, minsize=2, maxsize=2, rich=False, nshards=2, par=2)
+            fut2 = ex.submit(export_scoped, ctx, minsize=2, maxsize=2, nshards=2, shards=[ctx.seed % 2], thin=31,
+                             phase=(ctx.seed // 2) % 31)
             cases = export_universe(ctx, minsize=2, maxsize=2, rich=False, nshards=2, par=1, only=ctx.seed % 2)
             sources = fut.result()
+            scoped = fut2.result()
         jobs = jobs_for(cases, lambda k: [("dict", "file_array")[k % 2]], lambda k: [("ndarray", "list")[(k // 2) % 2]], keep=40,
                         every_single=False)
         ctx.extra["universe"] = (f"MC_XarrayLabels: Rich=FALSE sizes 2..2, shard {ctx.seed % 2} of 2 + multi-source family "
-                                 "(Rich=FALSE, sizes 2..2, every order)")
+                                 "(Rich=FALSE, sizes 2..2, every order) + scoped-names family (every 31st pair of that shard)")
     else:
         # thorough: A. the rich universe, every axis of size 2; B. one eighth (selected by the seed) of the basic universe
         # with all mixes of sizes 1..2 and C. the basic universe with size 3; views as in quick (full dataset on/off + one
@@ -588,17 +653,26 @@ def run(ctx: Ctx) -> None:
                          every_single=False)
         cases += more
         sources = export_sources(ctx, minsize=1, maxsize=2, rich=True, nshards=6, par=6)
+        scoped = export_scoped(ctx, minsize=2, maxsize=2, nshards=4, shards=[0, 1, 2, 3], thin=7, phase=ctx.seed % 7, par=4)
         ctx.extra["universe"] = (f"MC_XarrayLabels: Rich=TRUE sizes 2..2 (all shards) + Rich=FALSE sizes 1..2 shard {ctx.seed % 8} of 8 "
-                                 "+ Rich=FALSE sizes 3..3 (all shards) + multi-source family (Rich=TRUE, sizes 1..2, every order); "
+                                 "+ Rich=FALSE sizes 3..3 (all shards) + multi-source family (Rich=TRUE, sizes 1..2, every order) "
+                                 "+ scoped-names family (Rich=FALSE sizes 2..2, every 7th <<case, renaming>> pair); "
                                  "SameUniverse checked for Rich=FALSE sizes 1..2")
     # the multi-source family: storage / container kind alternate with the position of the case, so that the orders of one
     # choice of sources (neighbours in no particular order) are spread over both
     jobs += jobs_for(sources, lambda k: [("dict", "file_array")[k % 2]], lambda k: [("list", "ndarray")[(k // 2) % 2]],
                      every_single=False)
+    # the scoped-names family: the run folder is always read back (load_xarray_dataset); storage / container kind alternate
+    sjobs = jobs_for(scoped, lambda k: [("file_array", "dict")[k % 2]], lambda k: [("list", "ndarray")[(k // 2) % 2]],
+                     keep=len(scoped), every_single=False)
+    first_scoped = len(jobs)
+    jobs += sjobs
     for n, j in enumerate(jobs):
         j["k"] = n
     cases += sources
+    cases += scoped
     ctx.extra["multi_source_cases"] = len(sources)
+    ctx.extra["scoped_name_cases"] = {k: sum(1 for c in scoped if c["renaming"] == k) for k in sorted({c["renaming"] for c in scoped})}
     for c in cases:
         if c["order"] != sorted(c["order"]):
             raise MachineryError("universe name order is not alphabetical")
@@ -617,6 +691,7 @@ def run(ctx: Ctx) -> None:
                 "storage": mid["storage"], "vars": {x["name"]: x["dims"] for x in v["vars"]},
                 "coords": {c["name"]: c["axes"] for c in v["cands"]}, "acceptable": v["alts"]})
     selftest(ctx, jobs, results)
+    selftest_scoped(ctx, jobs[first_scoped:], results[first_scoped:])
 
     # seeded random pipelines through the same model (Mode = "file"); in the same TLC runs: the expectations for the
     # second run (inputs B) of a seeded sample of universe cases that are mapped twice into the same run folder
